@@ -2724,7 +2724,102 @@ func adminCase(r *RNG) string {
 		b, err := proto.Marshal(m)
 		return err == nil && proto.Unmarshal(b, into) == nil
 	}
-	kind := []string{"create", "create", "create", "delete", "enable", "disable"}[r.Intn(6)]
+	kind := []string{"create", "create", "create", "delete", "enable", "disable", "snapshot", "snapshot", "listtables", "balancer"}[r.Intn(10)]
+	switch kind {
+	case "snapshot":
+		// a snapshot description: name, table, version (0 is a version: the V1 manifest format),
+		// owner, type — the same in the request that takes it and in those that check, delete, restore it
+		name := "s" + string(r.Bytes(4, c05Alpha))
+		var opts []func(hrpc.Call) error
+		wantVersion, hasVersion := int32(0), false
+		if r.Intn(4) != 0 {
+			wantVersion, hasVersion = int32(r.Intn(3)), true
+			opts = append(opts, hrpc.SnapshotVersion(wantVersion))
+		}
+		owner := ""
+		if r.Bool() {
+			owner = "o" + string(r.Bytes(3, c05Alpha))
+			opts = append(opts, hrpc.SnapshotOwner(owner))
+		}
+		skip := r.Bool()
+		if skip {
+			opts = append(opts, hrpc.SnapshotSkipFlush())
+		}
+		sn, err := hrpc.NewSnapshot(ctx, name, string(table), opts...)
+		if err != nil {
+			return "c05 admin snapshot constructor-failed"
+		}
+		descs := map[string]*pb.SnapshotDescription{}
+		{
+			d := &pb.SnapshotRequest{}
+			if !reround(sn.ToProto(), d) {
+				return "c05 admin snapshot undecodable"
+			}
+			descs["take"] = d.GetSnapshot()
+		}
+		{
+			d := &pb.IsSnapshotDoneRequest{}
+			if !reround(hrpc.NewSnapshotDone(sn).ToProto(), d) {
+				return "c05 admin snapshot-done undecodable"
+			}
+			descs["done"] = d.GetSnapshot()
+		}
+		{
+			d := &pb.DeleteSnapshotRequest{}
+			if !reround(hrpc.NewDeleteSnapshot(sn).ToProto(), d) {
+				return "c05 admin snapshot-delete undecodable"
+			}
+			descs["delete"] = d.GetSnapshot()
+		}
+		{
+			d := &pb.RestoreSnapshotRequest{}
+			if !reround(hrpc.NewRestoreSnapshot(sn).ToProto(), d) {
+				return "c05 admin snapshot-restore undecodable"
+			}
+			descs["restore"] = d.GetSnapshot()
+		}
+		for _, which := range []string{"take", "done", "delete", "restore"} {
+			d := descs[which]
+			tag := "snapshot-" + which
+			switch {
+			case d.GetName() != name:
+				return "c05 admin " + tag + " name-differs"
+			case d.GetTable() != string(table):
+				return "c05 admin " + tag + " table-differs"
+			case hasVersion && (d.Version == nil || d.GetVersion() != wantVersion):
+				return "c05 admin " + tag + " version-differs"
+			case !hasVersion && d.Version != nil:
+				return "c05 admin " + tag + " version-invented"
+			case d.GetOwner() != owner:
+				return "c05 admin " + tag + " owner-differs"
+			case skip != (d.Type != nil && d.GetType() == pb.SnapshotDescription_SKIPFLUSH):
+				return "c05 admin " + tag + " type-differs"
+			}
+		}
+		return "c05 admin snapshot ok"
+	case "listtables":
+		regex, ns, sys := "r"+string(r.Bytes(3, c05Alpha)), "n"+string(r.Bytes(2, c05Alpha)), r.Bool()
+		l, err := hrpc.NewListTableNames(ctx, hrpc.ListRegex(regex), hrpc.ListNamespace(ns), hrpc.ListSysTables(sys))
+		d := &pb.GetTableNamesRequest{}
+		if err != nil || !reround(l.ToProto(), d) {
+			return "c05 admin listtables undecodable"
+		}
+		if d.GetRegex() != regex || d.GetNamespace() != ns || d.GetIncludeSysTables() != sys {
+			return "c05 admin listtables options-differ"
+		}
+		return "c05 admin listtables ok"
+	case "balancer":
+		on := r.Bool()
+		b, err := hrpc.NewSetBalancer(ctx, on)
+		d := &pb.SetBalancerRunningRequest{}
+		if err != nil || !reround(b.ToProto(), d) {
+			return "c05 admin balancer undecodable"
+		}
+		if d.GetOn() != on {
+			return "c05 admin balancer flag-differs"
+		}
+		return "c05 admin balancer ok"
+	}
 	switch kind {
 	case "delete", "enable", "disable":
 		var m proto.Message
